@@ -392,6 +392,99 @@ theorem query_after_del_falls_back (d : List HM) (m : HM) (ks kd : Arg) (s t : S
   exact lookup_inverse _ ks kd t s m x hk (Ne.symm hne) (by rw [lookup_erase, if_pos rfl])
     (by rw [lookup_erase, if_neg hts]; exact hm)
 
+/-! ## every access path of the registry reads its key the same way
+
+`reg.get(key)`, `reg[key]`, `key in reg` and `reg.transform(key, …)` all normalise the key (a
+`TransformKey`, or a pair of members / names in either case) before the dictionary is asked, so
+they agree with one another for every spelling. -/
+
+/-- `get`: the spelling of the key is irrelevant -/
+theorem get_spelling_irrelevant : ∀ p ∈ Gen.frameID, ∀ r ∈ Gen.frameID, ∀ a ∈ spellings p, ∀ b ∈ spellings r,
+    ∀ (d : List HM), dictGet d a b = .ok (lookup d (p.1, r.1)) := by
+  intro p hp r hr a ha b hb d
+  simp only [dictGet, transformKey_spelling p hp r hr a ha b hb, bind, Except.bind]
+  rfl
+
+/-- `reg[key]`: the spelling of the key is irrelevant -/
+theorem getitem_spelling_irrelevant : ∀ p ∈ Gen.frameID, ∀ r ∈ Gen.frameID, ∀ a ∈ spellings p, ∀ b ∈ spellings r,
+    ∀ (d : List HM), dictGetItem d a b = dictGetItem d (.member p.1) (.member r.1) := by
+  intro p hp r hr a ha b hb d
+  have h2 : transformKey (.member p.1) (.member r.1) = .ok (p.1, r.1) := rfl
+  simp only [dictGetItem, transformKey_spelling p hp r hr a ha b hb, h2]
+
+/-- `key in reg`: the spelling of the key is irrelevant -/
+theorem contains_spelling_irrelevant : ∀ p ∈ Gen.frameID, ∀ r ∈ Gen.frameID, ∀ a ∈ spellings p, ∀ b ∈ spellings r,
+    ∀ (d : List HM), dictContains d a b = .ok (lookup d (p.1, r.1)).isSome := by
+  intro p hp r hr a ha b hb d
+  simp only [dictContains, transformKey_spelling p hp r hr a ha b hb, bind, Except.bind]
+  rfl
+
+/-- `reg[key]` is `reg.get(key)` with `KeyError` in place of `None`, for every key (unknown names included) -/
+theorem getitem_eq_get (d : List HM) (ks kd : Arg) :
+    dictGetItem d ks kd = (dictGet d ks kd).bind (fun o => match o with | some m => .ok m | none => .error "KeyError") := by
+  unfold dictGetItem dictGet
+  cases transformKey ks kd <;> rfl
+
+/-- `key in reg` says whether `reg.get(key)` finds something -/
+theorem contains_eq_get (d : List HM) (ks kd : Arg) :
+    dictContains d ks kd = (dictGet d ks kd).map Option.isSome := by
+  unfold dictContains dictGet
+  cases transformKey ks kd <;> rfl
+
+/-- a name that is no frame is rejected by every path before anything is looked up -/
+theorem get_unknown_name (d : List HM) (s : String) (kd : Arg) (h : s.toLower ∉ values Gen.frameID) :
+    dictGet d (.str s) kd = .error "ValueError" ∧ dictGetItem d (.str s) kd = .error "ValueError" ∧
+    dictContains d (.str s) kd = .error "ValueError" := by
+  simp [dictGet, dictGetItem, dictContains, transformKey, frameOfArg, C20.nonmember_frame s h, bind, Except.bind]
+
+/-- `transform` answers X-to-Y (X ≠ Y) from what `get` finds under the same key: the matrix itself … -/
+theorem transform_of_get_direct (d : List HM) (ks kd : Arg) (s t : String) (m : HM) (x : TArg)
+    (hk : transformKey ks kd = .ok (s, t)) (hne : s ≠ t) (hg : dictGet d ks kd = .ok (some m)) :
+    dictTransform d ks kd x = m.transform x := by
+  have hm : lookup d (s, t) = some m := by
+    simp only [dictGet, hk, bind, Except.bind] at hg
+    exact Except.ok.inj hg
+  exact lookup_direct d ks kd s t m x hk hne hm
+
+/-- … or, when `get` finds nothing, the inverse of what `get` finds under the reversed key -/
+theorem transform_of_get_reverse (d : List HM) (ks kd : Arg) (s t : String) (m : HM) (x : TArg)
+    (hk : transformKey ks kd = .ok (s, t)) (hne : s ≠ t) (hg : dictGet d ks kd = .ok none)
+    (hr : dictGet d kd ks = .ok (some m)) :
+    dictTransform d ks kd x = (inv m).transform x := by
+  have hk' : transformKey kd ks = .ok (t, s) := by
+    simp only [transformKey, bind, Except.bind] at hk ⊢
+    cases h1 : frameOfArg ks with
+    | error e => simp [h1] at hk
+    | ok a =>
+      cases h2 : frameOfArg kd with
+      | error e => simp [h1, h2] at hk
+      | ok b =>
+        simp only [h1, h2] at hk ⊢
+        have := Except.ok.inj hk
+        simp only [Prod.mk.injEq] at this
+        rw [this.1, this.2]; rfl
+  have hnone : lookup d (s, t) = none := by
+    simp only [dictGet, hk, bind, Except.bind] at hg
+    exact Except.ok.inj hg
+  have hm : lookup d (t, s) = some m := by
+    simp only [dictGet, hk', bind, Except.bind] at hr
+    exact Except.ok.inj hr
+  exact lookup_inverse d ks kd s t m x hk hne hnone hm
+
+/-- after `reg[m.key] = m`, `get` under `m`'s key (any spelling) finds `m`; other keys are unaffected -/
+theorem get_after_set (d : List HM) (m : HM) (ks kd : Arg) (k : String × String)
+    (hk : transformKey ks kd = .ok k) :
+    dictGet (dictSet d m) ks kd = .ok (if m.key = k then some m else lookup d k) := by
+  simp only [dictGet, hk, bind, Except.bind, lookup_set]
+  rfl
+
+/-- after `del reg[k']`, `get` under `k'` (any spelling) finds nothing; other keys are unaffected -/
+theorem get_after_del (d : List HM) (ks kd : Arg) (k k' : String × String)
+    (hk : transformKey ks kd = .ok k) :
+    dictGet (dictErase d k') ks kd = .ok (if k = k' then none else lookup d k) := by
+  simp only [dictGet, hk, bind, Except.bind, lookup_erase]
+  rfl
+
 /-! ## non-vacuity: concrete rigid motions, chains and registries -/
 
 /-- rotation by the unit quaternion (1, 2, 2, 4)/5 with a translation, base_link → map -/
@@ -425,6 +518,12 @@ example : dictDel [exA, exB] ("BASE_LINK", "MAP") = .ok [exB] := by decide +kern
 example : dictDel [exB] ("BASE_LINK", "MAP") = .error "KeyError" := by decide +kernel
 example : dictTransform (dictErase [exA, exB] ("BASE_LINK", "MAP")) (.str "map") (.str "base_link") (.pos ⟨1, 0, 0⟩)
     = .error "KeyError" := by decide +kernel
+example : dictGet [exA, exB] (.str "BASE_LINK") (.str "MAP") = .ok (some exA) := by decide +kernel
+example : dictGet [exA, exB] (.member "MAP") (.str "base_link") = .ok none := by decide +kernel
+example : dictGetItem [exA, exB] (.str "Map") (.str "base_link") = .error "KeyError" := by decide +kernel
+example : dictGetItem [exA, exB] (.str "CAM_FRONT") (.member "BASE_LINK") = .ok exB := by decide +kernel
+example : dictContains [exA, exB] (.str "CAM_FRONT") (.member "BASE_LINK") = .ok true := by decide +kernel
+example : dictGet [exA] (.str "bogus") (.str "map") = .error "ValueError" := by decide +kernel
 example : (TArg.pos ⟨1, 0, 0⟩).malformed = none := rfl
 example : ("bogus" : String).toLower ∉ values Gen.frameID := by decide +kernel
 
